@@ -104,7 +104,50 @@ FAILING = {
     "raises": "from nada_dsl import *\n\ndef nada_main():\n    p = Party(name='P')\n    a = SecretInteger(Input(name='a', party=p))\n    return [Output(a + SecretBoolean(Input(name='b', party=p)), 'o', p)]\n",
     "raises at import": "from nada_dsl import *\nraise RuntimeError('boom')\n",
     "syntax error": "from nada_dsl import *\ndef nada_main(:\n",
+    "raises without a message": "from nada_dsl import *\n\ndef nada_main():\n    raise ValueError()\n",
+    "bare assert": "from nada_dsl import *\n\ndef nada_main():\n    p = Party(name='P')\n    assert p is None\n    return []\n",
+    "branches on a secret": "from nada_dsl import *\n\ndef nada_main():\n    p = Party(name='P')\n    a = SecretInteger(Input(name='a', party=p))\n"
+                            "    if a < a:\n        a = a + a\n    return [Output(a, 'o', p)]\n",
+    "multi-line message": "from nada_dsl import *\n\ndef nada_main():\n    raise RuntimeError('first line\\nsecond line')\n",
+    "returns a non-output": "from nada_dsl import *\n\ndef nada_main():\n    p = Party(name='P')\n    return [SecretInteger(Input(name='a', party=p))]\n",
+    "returns None": "from nada_dsl import *\n\ndef nada_main():\n    return None\n",
+    "output of a non-Nada value": "from nada_dsl import *\n\ndef nada_main():\n    p = Party(name='P')\n    return [Output(5, 'o', p)]\n",
+    "KeyError message": "from nada_dsl import *\n\ndef nada_main():\n    return {}['missing']\n",
 }
+
+# file names the property quantifies over: coinciding with imported / standard-library / package modules, dots, dashes
+FILE_NAMES = ["json.py", "nada_dsl.py", "os.py", "base64.py", "typing.py", "timer.py", "compile.py", "temp_program.py", "my.prog.py",
+              "my-prog.py", "a b.py", "sys.py", "importlib.py", "traceback.py", "dataclasses.py", "1prog.py", "__main__.py", "prog.v2.final.py"]
+# the same program with imports of standard-library modules whose names the file may coincide with
+IMPORTING = "import json\nimport os\nimport typing\n"
+
+
+def check_names(src, tmp, names, reference):
+    """the same text under every file name must give the reference result (up to source-location details)"""
+    viol = []
+    for j, name in enumerate(names):
+        d = os.path.join(tmp, f"names{abs(hash(src)) % 10**6}_{j}")
+        os.makedirs(d, exist_ok=True)
+        path = os.path.join(d, name)
+        with open(path, "w", encoding="utf-8") as f:
+            f.write(src)
+        # run from a neutral directory: with `python -m`, the current directory is first on sys.path, and a file named
+        # like a standard-library module there would shadow it for the interpreter itself (not the DSL's doing)
+        neutral = os.path.join(tmp, "neutral_cwd")
+        os.makedirs(neutral, exist_ok=True)
+        rc, out = cli([path], neutral, {})
+        obj, err = parse_line(out)
+        if err:
+            viol.append(("envelope", f"file name {name!r}: {err}: {out[:200]!r}"))
+            continue
+        if obj["result"] != reference["result"]:
+            viol.append(("file-name", f"compiled from a file named {name!r}: {obj['result']} ({obj.get('reason', '')[:160]}); "
+                                      f"the same text under a neutral name: {reference['result']}"))
+        elif obj["result"] == "Success":
+            dd = cm.first_diff(strip_locations(obj["_mir"]), strip_locations(reference["_mir"]))
+            if dd:
+                viol.append(("file-name", f"MIR differs when the file is named {name!r}: {dd}"))
+    return viol
 
 
 def run(res, tier):
@@ -136,6 +179,25 @@ def run(res, tier):
                     nontrivial.add(src)
                 for kind, text in viol:
                     res.violation({"property": "C13", "kind": kind, "text": text, "source": src}, f"program {i}: {kind}: {text}"[:400])
+        # file names: two programs (one of them importing standard-library modules) under every listed name
+        name_evals = 0
+        for src in [s for s in progs[:2]] + [IMPORTING + s for s in progs[:1]]:
+            d = os.path.join(tmp, f"ref{name_evals}")
+            os.makedirs(d, exist_ok=True)
+            path = os.path.join(d, "neutral_reference_name.py")
+            with open(path, "w", encoding="utf-8") as f:
+                f.write(src)
+            ref, err = parse_line(cli([path], d, {})[1])
+            if err:
+                continue
+            names = FILE_NAMES if tier != "quick" else FILE_NAMES[:10]
+            with ThreadPoolExecutor(max_workers=8) as ex:
+                chunks = [names[i::4] for i in range(4)]
+                for viol in ex.map(lambda ch: check_names(src, tmp, ch, ref), chunks):
+                    for kind, text in viol:
+                        res.violation({"property": "C13", "kind": kind, "text": text, "source": src}, f"{kind}: {text}"[:400])
+            name_evals += len(names)
+            evals += len(names)
         # failing programs: exactly one Failure object with a reason
         for label, src in FAILING.items():
             d = os.path.join(tmp, "f" + str(abs(hash(label)) % 1000))
@@ -143,8 +205,8 @@ def run(res, tier):
             path = os.path.join(d, "failing_prog.py")
             with open(path, "w", encoding="utf-8") as f:
                 f.write(src)
-            for args in ([path], ["-s", base64.b64encode(src.encode()).decode()]):
-                rc, out = cli(args, d, {})
+            for args, envx in (([path], {}), (["-s", base64.b64encode(src.encode()).decode()], {}), ([path], {"NADA_TIMER": "1"})):
+                rc, out = cli(args, d, envx)
                 evals += 1
                 obj, err = parse_line(out)
                 if err or obj["result"] != "Failure":
@@ -178,12 +240,34 @@ def run(res, tier):
 def replay(obj):
     tmp = tempfile.mkdtemp(prefix="nvc13")
     try:
-        if "source" in obj and obj.get("kind") != "failure-envelope":
+        if obj.get("kind") == "file-name":
+            d = os.path.join(tmp, "ref")
+            os.makedirs(d, exist_ok=True)
+            path = os.path.join(d, "neutral_reference_name.py")
+            with open(path, "w", encoding="utf-8") as f:
+                f.write(obj["source"])
+            ref, err = parse_line(cli([path], d, {})[1])
+            viol = [("envelope", err)] if err else check_names(obj["source"], tmp, FILE_NAMES, ref)
+            print(viol[:4])
+            bad = bool(viol)
+        elif obj.get("kind") == "failure-envelope" and "source" in obj:
+            d = os.path.join(tmp, "f")
+            os.makedirs(d, exist_ok=True)
+            path = os.path.join(d, "failing_prog.py")
+            with open(path, "w", encoding="utf-8") as f:
+                f.write(obj["source"])
+            bad = False
+            for args, envx in (([path], {}), (["-s", base64.b64encode(obj["source"].encode()).decode()], {}), ([path], {"NADA_TIMER": "1"})):
+                o, err = parse_line(cli(args, d, envx)[1])
+                print(args[:1], err or o["result"])
+                bad = bad or bool(err) or o["result"] != "Failure"
+        elif obj.get("kind") == "failure-envelope":
+            o, err = parse_line(cli(obj.get("args", []), tmp, {})[1])
+            bad = bool(err) or o["result"] != "Failure"
+        else:
             viol, _ = check_program(0, obj["source"], tmp, ["0", "1", "4242"])
             print(viol)
             bad = bool(viol)
-        else:
-            bad = True
     finally:
         shutil.rmtree(tmp, ignore_errors=True)
     if bad:
